@@ -1,4 +1,5 @@
 import XmpModel.Stream
+set_option linter.unusedSimpArgs false
 /-! Helper lemmas for C07: slices, the `fgetc` loop, and the per-operation
 refinement of `Spec` by the three back-ends. -/
 namespace Xmp.Stream
@@ -94,5 +95,454 @@ def Cb.Rel {σ : Type} (posOf : σ → Nat) (s : Spec.St) (t : Cb.St σ) : Prop 
 
 theorem Spec.inv_init (bytes : Bytes) : Spec.Inv bytes {} := by
   simp [Spec.Inv]
+
+
+/-! ### the abstract stream keeps its invariant -/
+
+
+theorem Word.len_pos (w : Word) : 0 < w.len := by cases w <;> decide
+
+theorem Spec.inv_step (bytes : Bytes) (s s' : Spec.St) (o : Op) (out : Out)
+    (hinv : Spec.Inv bytes s) (h : Spec.step bytes s o = some (out, s')) : Spec.Inv bytes s' := by
+  obtain ⟨hp, hs⟩ := hinv
+  cases o with
+  | word w =>
+    simp only [Spec.step] at h
+    split at h <;> simp at h <;> obtain ⟨_, rfl⟩ := h
+    · have := Word.len_pos w
+      refine ⟨by simpa, ?_⟩
+      intro hst; have := hs hst; simp at *; omega
+    · simp [Spec.Inv]
+  | read size num =>
+    simp only [Spec.step] at h
+    split at h
+    · split at h <;> simp at h
+      obtain ⟨_, rfl⟩ := h; exact ⟨hp, hs⟩
+    · split at h
+      · split at h <;> simp at h
+        obtain ⟨_, rfl⟩ := h; exact ⟨hp, hs⟩
+      · split at h <;> simp at h <;> obtain ⟨_, rfl⟩ := h
+        · rename_i h1 h2 h3
+          refine ⟨by simpa, ?_⟩
+          intro hst; have := hs hst; simp at *
+          have : 0 < size * num := Nat.mul_pos (by omega) (by omega)
+          omega
+        · simp [Spec.Inv]
+  | seek off w =>
+    simp only [Spec.step] at h
+    split at h
+    · split at h <;> simp at h
+      obtain ⟨_, rfl⟩ := h; exact ⟨hp, hs⟩
+    · split at h
+      · rename_i h2; simp at h; obtain ⟨_, rfl⟩ := h; exact ⟨h2, by simp⟩
+      · simp at h
+  | tell => simp [Spec.step] at h; obtain ⟨_, rfl⟩ := h; exact ⟨hp, hs⟩
+  | eof =>
+    simp only [Spec.step] at h
+    split at h
+    · simp at h; obtain ⟨_, rfl⟩ := h; exact ⟨hp, hs⟩
+    · split at h <;> simp at h
+      obtain ⟨_, rfl⟩ := h; exact ⟨hp, hs⟩
+  | error => simp [Spec.step] at h; obtain ⟨_, rfl⟩ := h; exact ⟨hp, hs⟩
+  | size => simp [Spec.step] at h; obtain ⟨_, rfl⟩ := h; exact ⟨hp, hs⟩
+
+/-! ### FILE refines Spec -/
+
+
+theorem Word.failFile_eq (w : Word) (h : w ≠ .s8) : w.failFile = w.failOnes := by
+  cases w <;> simp_all [Word.failFile]
+
+theorem File.refines (bytes : Bytes) (s s' : Spec.St) (o : Op) (out : Out)
+    (hinv : Spec.Inv bytes s) (h : Spec.step bytes s o = some (out, s')) :
+    Agree bytes s o out (File.step bytes (File.ofSpec s) o).1 ∧
+    (File.step bytes (File.ofSpec s) o).2 = File.ofSpec s' := by
+  obtain ⟨hp, hs⟩ := hinv
+  cases o with
+  | word w =>
+    simp only [Spec.step] at h
+    split at h <;> simp at h <;> obtain ⟨rfl, rfl⟩ := h
+    · rename_i hle
+      simp only [File.step]
+      rw [File.getcs_ok bytes w.len (File.ofSpec s) [] (by simpa [File.ofSpec] using hle)]
+      simp [Agree, File.ofSpec]
+    · rename_i hgt
+      simp only [File.step]
+      rw [File.getcs_fail bytes w.len (File.ofSpec s) [] (by simpa [File.ofSpec] using hp)
+        (by simp [File.ofSpec]; omega)]
+      refine ⟨?_, by simp [File.ofSpec]⟩
+      by_cases hw : w = .s8
+      · subst hw
+        right; left
+        refine ⟨rfl, ?_, _, rfl⟩
+        simp [Word.len] at hgt; omega
+      · left; simp [Word.failFile_eq w hw]
+  | read size num =>
+    simp only [Spec.step] at h
+    split at h
+    · rename_i hn
+      split at h <;> simp at h
+      obtain ⟨rfl, rfl⟩ := h
+      subst hn
+      simp [File.step, File.fread, Agree]
+    · rename_i hn
+      split at h
+      · rename_i hz
+        split at h <;> simp at h
+        rename_i hst
+        obtain ⟨rfl, rfl⟩ := h
+        subst hz
+        have : ¬ (0 = num) := fun h => hn h.symm
+        simp [File.step, File.fread, Agree, File.ofSpec, hst, this]
+      · rename_i hz
+        have htot : size * num ≠ 0 := Nat.mul_ne_zero hz hn
+        split at h <;> simp at h <;> obtain ⟨rfl, rfl⟩ := h
+        · rename_i hle
+          have hlen : (slice bytes s.pos (size * num)).length = size * num := by
+            rw [slice_length]; omega
+          have hdiv : size * num / size = num := Nat.mul_div_cancel_left num (Nat.pos_of_ne_zero hz)
+          simp only [File.step, File.fread, htot, if_false, File.ofSpec, hlen, hdiv]
+          have hst : s.sticky = false := by
+            cases hb : s.sticky
+            · rfl
+            · have := hs hb; omega
+          simp [Agree, Nat.mul_comm num size, hlen, hst]
+          left; exact List.take_of_length_le (by omega)
+        · rename_i hgt
+          have hall : slice bytes s.pos (size * num) = bytes.drop s.pos := slice_all _ _ _ (by omega)
+          have hlen : (bytes.drop s.pos).length = bytes.length - s.pos := by simp
+          have hne : (bytes.length - s.pos) / size ≠ num := by
+            intro he
+            have := Nat.div_mul_le_self (bytes.length - s.pos) size
+            rw [he, Nat.mul_comm] at this
+            omega
+          simp only [File.step, File.fread, htot, if_false, File.ofSpec, hall]
+          simp [Agree, hne, hlen]
+          constructor
+          · omega
+          · omega
+  | seek off w =>
+    simp only [Spec.step] at h
+    split at h
+    · split at h <;> simp at h
+      obtain ⟨rfl, rfl⟩ := h
+      rename_i hneg hst
+      simp [File.step, File.ofSpec, hneg, Agree]
+    · split at h
+      · rename_i hneg hle; simp at h; obtain ⟨rfl, rfl⟩ := h
+        simp [File.step, File.ofSpec, hneg, Agree]
+      · simp at h
+  | tell => simp [Spec.step] at h; obtain ⟨rfl, rfl⟩ := h; simp [File.step, File.ofSpec, Agree]
+  | eof =>
+    simp only [Spec.step] at h
+    split at h
+    · rename_i hst; simp at h; obtain ⟨rfl, rfl⟩ := h; simp [File.step, File.ofSpec, Agree, hst, b2i]
+    · split at h <;> simp at h
+      rename_i hst _
+      obtain ⟨rfl, rfl⟩ := h; simp [File.step, File.ofSpec, Agree, hst, b2i]
+  | error => simp [Spec.step] at h; obtain ⟨rfl, rfl⟩ := h; simp [File.step, File.ofSpec, Agree]
+  | size => simp [Spec.step] at h; obtain ⟨rfl, rfl⟩ := h; simp [File.step, File.ofSpec, Agree]
+
+/-! ### memory refines Spec (exactly) -/
+
+
+theorem Mem.refines (bytes : Bytes) (s s' : Spec.St) (o : Op) (out : Out)
+    (hinv : Spec.Inv bytes s) (h : Spec.step bytes s o = some (out, s')) :
+    Mem.step bytes (Mem.ofSpec s) o = (out, Mem.ofSpec s') := by
+  obtain ⟨hp, hs⟩ := hinv
+  cases o with
+  | word w =>
+    simp only [Spec.step] at h
+    split at h <;> simp at h <;> obtain ⟨rfl, rfl⟩ := h
+    · rename_i hle
+      have : bytes.length - s.pos ≥ w.len := by omega
+      simp [Mem.step, Mem.canRead, Mem.ofSpec, this]
+    · rename_i hgt
+      have : ¬ (bytes.length - s.pos ≥ w.len) := by omega
+      simp [Mem.step, Mem.canRead, Mem.ofSpec, this]
+      omega
+  | read size num =>
+    simp only [Spec.step] at h
+    split at h
+    · rename_i hn
+      split at h <;> simp at h
+      obtain ⟨rfl, rfl⟩ := h
+      subst hn
+      simp [Mem.step, Mem.mread]
+    · rename_i hn
+      split at h
+      · rename_i hz
+        split at h <;> simp at h
+        obtain ⟨rfl, rfl⟩ := h
+        subst hz
+        have : ¬ (0 = num) := fun h => hn h.symm
+        simp [Mem.step, Mem.mread, Mem.ofSpec, this]
+      · rename_i hz
+        have htot : 0 < size * num := Nat.mul_pos (Nat.pos_of_ne_zero hz) (Nat.pos_of_ne_zero hn)
+        split at h <;> simp at h <;> obtain ⟨rfl, rfl⟩ := h
+        · rename_i hle
+          have hlen : (slice bytes s.pos (size * num)).length = size * num := by
+            rw [slice_length]; omega
+          have hc : ¬ (bytes.length - s.pos = 0) := by omega
+          have hc2 : ¬ (size * num > bytes.length - s.pos) := by omega
+          simp only [Mem.step, Mem.mread, Mem.canRead, Mem.ofSpec, hz, hn, hc, hc2, false_or, if_false]
+          simp [Nat.mul_comm num size, hlen]
+          exact List.take_of_length_le (by omega)
+        · rename_i hgt
+          have hlen : (bytes.drop s.pos).length = bytes.length - s.pos := by simp
+          have hne : (bytes.length - s.pos) / size ≠ num := by
+            intro he
+            have := Nat.div_mul_le_self (bytes.length - s.pos) size
+            rw [he, Nat.mul_comm] at this
+            omega
+          by_cases hc : bytes.length - s.pos = 0
+          · have hd : bytes.drop s.pos = [] := by
+              apply List.drop_eq_nil_of_le; omega
+            have h0 : ¬ (0 = num) := fun h => hn h.symm
+            have hpe : s.pos = bytes.length := by omega
+            simp [Mem.step, Mem.mread, Mem.canRead, Mem.ofSpec, hz, hn, hc, hd, h0, hpe]
+          · have hc2 : size * num > bytes.length - s.pos := by omega
+            have hall : slice bytes s.pos (bytes.length - s.pos) = bytes.drop s.pos := slice_all _ _ _ (Nat.le_refl _)
+            simp only [Mem.step, Mem.mread, Mem.canRead, Mem.ofSpec, hz, hn, hc, hc2, false_or, if_false, if_true, hall]
+            simp [hne]
+            omega
+  | seek off w =>
+    simp only [Spec.step] at h
+    split at h
+    · split at h <;> simp at h
+      obtain ⟨rfl, rfl⟩ := h
+      rename_i hneg hst
+      simp [Mem.step, Mem.ofSpec, hneg]
+    · split at h
+      · rename_i hneg hle; simp at h; obtain ⟨rfl, rfl⟩ := h
+        simp [Mem.step, Mem.ofSpec, hneg, Nat.min_eq_left hle]
+      · simp at h
+  | tell => simp [Spec.step] at h; obtain ⟨rfl, rfl⟩ := h; simp [Mem.step, Mem.ofSpec]
+  | eof =>
+    simp only [Spec.step] at h
+    split at h
+    · rename_i hst; simp at h; obtain ⟨rfl, rfl⟩ := h
+      have := hs hst
+      simp [Mem.step, Mem.ofSpec, Mem.canRead, this, b2i]
+    · split at h <;> simp at h
+      rename_i hst hlt
+      obtain ⟨rfl, rfl⟩ := h
+      have : ¬ (bytes.length - s.pos = 0) := by omega
+      simp [Mem.step, Mem.ofSpec, Mem.canRead, b2i, this]
+  | error => simp [Spec.step] at h; obtain ⟨rfl, rfl⟩ := h; simp [Mem.step, Mem.ofSpec]
+  | size => simp [Spec.step] at h; obtain ⟨rfl, rfl⟩ := h; simp [Mem.step, Mem.ofSpec]
+
+/-! ### every legal callback set refines Spec -/
+
+
+theorem Cb.refines {σ : Type} (bytes : Bytes) (cb : Callbacks σ) (posOf : σ → Nat)
+    (hl : Legal bytes cb posOf) (s s' : Spec.St) (t : Cb.St σ) (o : Op) (out : Out)
+    (hinv : Spec.Inv bytes s) (hr : Cb.Rel posOf s t) (h : Spec.step bytes s o = some (out, s')) :
+    Agree bytes s o out (Cb.step cb bytes.length t o).1 ∧
+    Cb.Rel posOf s' (Cb.step cb bytes.length t o).2 := by
+  obtain ⟨hp, hs⟩ := hinv
+  obtain ⟨hpos, heof, herr⟩ := hr
+  have hpu : posOf t.u ≤ bytes.length := by omega
+  cases o with
+  | word w =>
+    have hwl := Word.len_pos w
+    simp only [Spec.step] at h
+    split at h <;> simp at h <;> obtain ⟨rfl, rfl⟩ := h
+    · rename_i hle
+      obtain ⟨h1, h2, h3⟩ := hl.read_full t.u w.len 1 (by omega) (by omega)
+      rw [Cb.step]
+      generalize cb.read t.u w.len 1 = rr at *
+      obtain ⟨r, buf, u'⟩ := rr
+      simp only at h1 h2 h3
+      subst h1
+      have hbl : buf.length = w.len := by rw [h2, slice_length]; omega
+      have hbt : buf.take w.len = buf := List.take_of_length_le (by omega)
+      simp only [Nat.mul_one] at h2 h3
+      refine ⟨Or.inl ?_, ?_⟩
+      · rw [hpos] at h2
+        subst h2
+        simp [hbt, hbl]
+      · simp [Cb.Rel, h3, hpos, herr]
+        cases hb : s.sticky
+        · rfl
+        · have := hs hb; omega
+    · rename_i hgt
+      obtain ⟨h1, _, _, h4⟩ := hl.read_short t.u w.len 1 hpu (by omega)
+      rw [Cb.step]
+      generalize cb.read t.u w.len 1 = rr at *
+      obtain ⟨r, buf, u'⟩ := rr
+      simp only at h1 h4
+      have hr0 : r = 0 := by rw [h1]; apply Nat.div_eq_of_lt; omega
+      subst hr0
+      simp [Agree, Cb.Rel, h4]
+  | read size num =>
+    simp only [Spec.step] at h
+    split at h
+    · rename_i hn
+      split at h <;> simp at h
+      rename_i hst
+      obtain ⟨rfl, rfl⟩ := h
+      subst hn
+      obtain ⟨h1, h2, h3⟩ := hl.read_zero t.u size 0 hpu (by simp)
+      rw [Cb.step]
+      generalize cb.read t.u size 0 = rr at *
+      obtain ⟨r, buf, u'⟩ := rr
+      simp only at h1 h2 h3
+      subst h1 h2
+      simp [Agree, Cb.Rel, h3, hpos, herr, hst]
+    · rename_i hn
+      split at h
+      · rename_i hz
+        split at h <;> simp at h
+        rename_i hst
+        obtain ⟨rfl, rfl⟩ := h
+        subst hz
+        obtain ⟨h1, h2, h3⟩ := hl.read_zero t.u 0 num hpu (by simp)
+        rw [Cb.step]
+        generalize cb.read t.u 0 num = rr at *
+        obtain ⟨r, buf, u'⟩ := rr
+        simp only at h1 h2 h3
+        subst h1 h2
+        have h0 : ¬ (0 = num) := fun h => hn h.symm
+        simp [Agree, Cb.Rel, h3, hpos, hst, h0]
+        omega
+      · rename_i hz
+        have htot : 0 < size * num := Nat.mul_pos (Nat.pos_of_ne_zero hz) (Nat.pos_of_ne_zero hn)
+        split at h <;> simp at h <;> obtain ⟨rfl, rfl⟩ := h
+        · rename_i hle
+          obtain ⟨h1, h2, h3⟩ := hl.read_full t.u size num htot (by omega)
+          rw [Cb.step]
+          generalize cb.read t.u size num = rr at *
+          obtain ⟨r, buf, u'⟩ := rr
+          simp only at h1 h2 h3
+          subst h1
+          rw [hpos] at h2 h3
+          subst h2
+          have hlen : (slice bytes s.pos (size * r)).length = size * r := by
+            rw [slice_length]; omega
+          have hst : s.sticky = false := by
+            cases hb : s.sticky
+            · rfl
+            · have := hs hb; omega
+          refine ⟨Or.inl ?_, ?_⟩
+          · simp [Nat.mul_comm r size, hlen]
+            exact List.take_of_length_le (by omega)
+          · simp [Cb.Rel, h3, herr, hst]
+        · rename_i hgt
+          obtain ⟨h1, h2, h3, h4⟩ := hl.read_short t.u size num hpu (by omega)
+          rw [Cb.step]
+          generalize cb.read t.u size num = rr at *
+          obtain ⟨r, buf, u'⟩ := rr
+          simp only at h1 h2 h3 h4
+          rw [hpos] at h1 h2
+          have hall : slice bytes s.pos (bytes.length - s.pos) = bytes.drop s.pos := slice_all _ _ _ (Nat.le_refl _)
+          rw [hall] at h2
+          unfold IsPre at h2
+          have hlen : (bytes.drop s.pos).length = bytes.length - s.pos := by simp
+          have hrlt : r < num := by
+            have := Nat.div_mul_le_self (bytes.length - s.pos) size
+            rw [← h1] at this
+            have h5 : r * size < num * size := by rw [Nat.mul_comm num size]; omega
+            exact Nat.lt_of_mul_lt_mul_right h5
+          have hitems : buf.take (r * size) = (bytes.drop s.pos).take (r * size) := by
+            rw [← h2, List.take_take, Nat.min_eq_left h3]
+          refine ⟨Or.inr (Or.inr ⟨r, buf.take (r * size), (bytes.drop s.pos).drop (r * size),
+            buf.drop (r * size), ?_, rfl⟩), ?_⟩
+          · subst h1
+            simp
+            exact hitems.symm
+          · have hne : r ≠ num := by omega
+            simp [Cb.Rel, h4, hrlt, hne]
+  | seek off w =>
+    simp only [Spec.step] at h
+    split at h
+    · split at h <;> simp at h
+      obtain ⟨rfl, rfl⟩ := h
+      rename_i hneg hst
+      obtain ⟨h1, h2⟩ := hl.seek_neg t.u off w hpu (by rw [hpos]; exact hneg)
+      rw [Cb.step]
+      generalize cb.seek t.u off w = rr at *
+      obtain ⟨ret, u'⟩ := rr
+      simp only at h1 h2
+      simp [h1, Agree, Cb.Rel, h2, hpos, hst]
+    · split at h
+      · rename_i hneg hle; simp at h; obtain ⟨rfl, rfl⟩ := h
+        obtain ⟨h1, h2⟩ := hl.seek_ok t.u off w hpu (by rw [hpos]; omega) (by rw [hpos]; omega)
+        rw [Cb.step]
+        generalize cb.seek t.u off w = rr at *
+        obtain ⟨ret, u'⟩ := rr
+        simp only at h1 h2
+        subst h1
+        simp [Agree, Cb.Rel, herr]
+        rw [hpos] at h2
+        omega
+      · simp at h
+  | tell =>
+    simp [Spec.step] at h; obtain ⟨rfl, rfl⟩ := h
+    have := hl.tell_eq t.u hpu
+    have hnn : ¬ ((s.pos : Int) < 0) := by omega
+    simp [Cb.step, Agree, Cb.Rel, this, hpos, heof, herr, hnn]
+  | eof =>
+    simp only [Spec.step] at h
+    split at h
+    · rename_i hst; simp at h; obtain ⟨rfl, rfl⟩ := h
+      simp [Cb.step, Agree, Cb.Rel, hpos, heof, herr, hst, b2i]
+    · split at h <;> simp at h
+      rename_i hst hlt
+      obtain ⟨rfl, rfl⟩ := h
+      simp [Cb.step, Agree, Cb.Rel, hpos, heof, herr, hst, b2i]
+  | error => simp [Spec.step] at h; obtain ⟨rfl, rfl⟩ := h; simp [Cb.step, Agree, Cb.Rel, hpos, heof, herr]
+  | size => simp [Spec.step] at h; obtain ⟨rfl, rfl⟩ := h; simp [Cb.step, Agree, Cb.Rel, hpos, heof, herr]
+
+
+/-! ### the harness's callback family honours the contract -/
+
+
+theorem memCb_legal (bytes : Bytes) (pol : CbPolicy) : Legal bytes (memCb bytes pol) id where
+  tell_eq := by intro u _; rfl
+  read_zero := by
+    intro u len n _ h0
+    simp [memCb, h0]
+  read_full := by
+    intro u len n hpos hle
+    have hlen : 0 < len := Nat.pos_of_mul_pos_right hpos
+    have hne : len * n ≠ 0 := by omega
+    have hmin : min (len * n) (bytes.length - u) = len * n := by
+      apply Nat.min_eq_left; simp only [id] at hle; omega
+    simp only [memCb, hne, if_false, hmin, true_or, if_true, id]
+    refine ⟨Nat.mul_div_cancel_left n hlen, ?_, trivial⟩
+    exact copyChunks_eq bytes pol.chunk _ _ _ hle
+  read_short := by
+    intro u len n hp hgt
+    simp only [id] at hp hgt
+    have hne : len * n ≠ 0 := by omega
+    have hmin : min (len * n) (bytes.length - u) = bytes.length - u := by
+      apply Nat.min_eq_right; omega
+    have hneq : ¬ (bytes.length - u = len * n) := by omega
+    have hdm := Nat.div_mul_le_self (bytes.length - u) len
+    simp only [memCb, hne, if_false, hmin, hneq, false_or, id]
+    refine ⟨trivial, ?_, ?_, by omega⟩
+    · split
+      · rw [copyChunks_eq bytes pol.chunk _ _ _ (by omega)]
+        simp [IsPre]
+      · rw [copyChunks_eq bytes pol.chunk _ _ _ (by omega)]
+        simp only [IsPre, slice_length]
+        unfold slice
+        rw [List.take_take]
+        congr 1
+        omega
+    · split
+      · rw [copyChunks_eq bytes pol.chunk _ _ _ (by omega), slice_length]; omega
+      · rw [copyChunks_eq bytes pol.chunk _ _ _ (by omega), slice_length]; omega
+  seek_ok := by
+    intro u off w hp h0 hle
+    simp only [id] at *
+    have h1 : ¬ (target bytes.length u off w < 0) := by omega
+    have h2 : (target bytes.length u off w).toNat ≤ bytes.length := by omega
+    simp only [memCb, h1, if_false, h2, if_true, true_and]
+    omega
+  seek_neg := by
+    intro u off w hp hneg
+    simp only [id] at *
+    simp [memCb, hneg]
 
 end Xmp.Stream
